@@ -140,6 +140,7 @@ def one(ctx, case, tmpdir, decisions=None):
     ctx.count("steps", s.steps)
     ctx.count("context_switches", s.context_switches)
     ctx.count("timeouts_fired", s.timeouts_fired)
+    ctx.count("timed_waits_offered", s.timed_waits)
     ctx.count("detections_expected", len(expected))
     ctx.maxi("queue_depth", s.max_queue_depth)
     ctx.maxi("threads", len(s.states))
@@ -193,6 +194,7 @@ def systematic(ctx, conf, tmpdir):
             ctx.count("systematic_schedules")
             ctx.count("steps", s.steps)
             ctx.count("timeouts_fired", s.timeouts_fired)
+            ctx.count("timed_waits_offered", s.timed_waits)
             ctx.count("context_switches", s.context_switches)
             if not check_run(ctx, dict(case, deviations={str(k): v for k, v in devs.items()}), data, tmpdir, res, expected):
                 ok = False
@@ -220,6 +222,7 @@ def marathons(ctx, tmpdir):
         ctx.count("timeout_marathon_runs")
         ctx.maxi("timeouts_fired_in_one_run", res.sched.timeouts_fired)
         ctx.count("timeouts_fired", res.sched.timeouts_fired)
+        ctx.count("timed_waits_offered", res.sched.timed_waits)
         ctx.case(stable_hash(["marathon", res.sched.steps, res.sched.timeouts_fired]), bool(expected))
         check_run(ctx, case, data, tmpdir, res, expected)
     # (b)
@@ -370,10 +373,11 @@ def replay(ctx, case):
 
 def inconclusive(merged, tier):
     c = merged["counters"]
-    need = ["scheduled_runs", "messages_checked", "timeouts_fired", "context_switches", "line_mode_runs", "instruction_mode_runs", "all_module_line_mode_runs", "line_preemptions",
+    _timed = ["monitor never observed timeouts_fired"] if c.get("timed_waits_offered", 0) and not c.get("timeouts_fired", 0) else []  # (an implementation whose waits carry no timeout offers none to fire)
+    need = ["scheduled_runs", "messages_checked", "context_switches", "line_mode_runs", "instruction_mode_runs", "all_module_line_mode_runs", "line_preemptions",
             "stress_runs", "stress_messages_checked", "systematic_schedules", "systematic_pipelines_fully_enumerated", "observers_checked_rec", "observers_checked_print",
             "observers_checked_regionsaver", "observers_checked_joiner", "runs_with_stream_saver", "programs_whose_main_thread_returned_after_start_all", "runs_over_an_overlapping_reader", "runs_with_long_bursts_of_detections", "runs_with_a_logger", "observers_that_died_mid_stream", "runs_with_a_failing_close", "runs_started_tokenizer_first", "runs_with_blocking_observer_waits", "runs_with_a_command_observer", "timeout_marathon_runs", "runs_with_more_than_10000_detections"] + ["strategy_" + s for s in P.S.NAMES]
-    out = [f"monitor never observed {k}" for k in need if c.get(k, 0) == 0]
+    out = [f"monitor never observed {k}" for k in need if c.get(k, 0) == 0] + _timed
     if c.get("inconclusive_runs", 0) > max(3, c.get("scheduled_runs", 0) // 50):
         out.append(f"{c['inconclusive_runs']} runs hit a step/wall cap")
     return out
